@@ -20,6 +20,11 @@ find_neighbors docstrings; exact rational arithmetic):
   Outcomes the documentation does not decide are not asserted (counted as
   undecided:*).
 
+Monitor C: the same glyph boxes drawn through a form XObject (/Matrix not commuting with the CTM) and analysed
+with all_texts=True give the same lines, boxes, order and groups as on the page; the LTFigure box is the /BBox mapped
+by /Matrix x CTM.  Monitor D: tools/pdf2txt.py with --line-overlap/--char-margin/--word-margin/--line-margin/
+--boxes-flow/--detect-vertical/--all-texts writes the text extract_text gives with LAParams of the same values.
+
 Monitor B (independent of the documentation): the same arrangement with every
 coordinate (page box included) multiplied by 2^k gives the identical tree
 (classes, membership, order, inserted spaces/newlines, box indices) and every
@@ -50,7 +55,13 @@ RULE = (
     "over-printed lines, random glyph soups; LAParams dyadic (plus the defaults); each arrangement analysed at scale "
     "2^k for k in a tier-dependent subset of -8..8 (all 17 in thorough for the direct route). distinct = distinct "
     "(glyph boxes, page, LAParams, route); non-trivial = at least one glyph pair or line pair whose outcome the "
-    "documentation decides. All glyphs lie inside the page box (>= 1 unit margin; about a quarter of the direct pages "
+    "documentation decides. form: 8 families x the same glyph boxes drawn through a form XObject whose /Matrix "
+    "(scale 1/2..4 + translation) does not commute with the cm at Do (scale, translation > 2 page sizes), "
+    "all_texts=True, compared with the page twin, with the documented grouping, the figure box and 2 further scales "
+    "applied through the cm alone. tool: tools/pdf2txt.py run on such PDFs (a quarter through a form) with every "
+    "numeric layout flag off its default, output compared with extract_text(laparams=LAParams(same values)); a flag "
+    "counts as exercised only when resetting it alone changes the library's text (tool_flag_matters:*). "
+    "All glyphs lie inside the page box (>= 1 unit margin; about a quarter of the direct pages "
     "have a non-zero, also negative, origin): text outside the page box is invisible and the documentation does not "
     "speak about it. Not generated / not asserted (documentation silent): word_margin = 0, glyphs placed "
     "entirely left of their predecessor (spaces), word_margin basis when height > width and the two documented "
@@ -102,6 +113,10 @@ def minimums(tier: str) -> Dict[str, int]:
             "near:line_margin_gap:below": 1800, "near:line_margin_gap:on": 2200, "near:line_margin_gap:above": 1100,
             "near:align:below": 130, "near:align:above": 110, "near:height:below": 70, "near:height:above": 65,
             "vertical_lines_seen": 3600, "multi_cell_pages": 20000, "seen:families": 21, "seen:boxes_flow": 7,
+            "form_cases": 560, "form_vs_page_compared": 500, "form_cases_with_multiline_box": 200,
+            "form:box_partitions_asserted": 250, "tool_runs": 380, "tool_flag_matters:lo": 40,
+            "tool_flag_matters:cm": 65, "tool_flag_matters:lm": 100, "tool_flag_matters:wm": 35,
+            "tool_flag_matters:bf": 55, "tool_flag_matters:dv": 45, "tool_flag_matters:at": 50,
         }
     return {
         "evaluations": 95000, "distinct": 90000, "analyses": 1400000, "pairs_decided": 750000, "pairs_joined": 540000,
@@ -115,6 +130,10 @@ def minimums(tier: str) -> Dict[str, int]:
         "near:line_margin_gap:below": 10000, "near:line_margin_gap:on": 13000, "near:line_margin_gap:above": 6600,
         "near:align:below": 850, "near:align:above": 700, "near:height:below": 520, "near:height:above": 450,
         "vertical_lines_seen": 23000, "multi_cell_pages": 250000, "seen:families": 25, "seen:boxes_flow": 7,
+        "form_cases": 3200, "form_vs_page_compared": 3000, "form_cases_with_multiline_box": 1100,
+        "form:box_partitions_asserted": 1400, "tool_runs": 2300, "tool_flag_matters:lo": 240,
+        "tool_flag_matters:cm": 380, "tool_flag_matters:lm": 590, "tool_flag_matters:wm": 220,
+        "tool_flag_matters:bf": 340, "tool_flag_matters:dv": 250, "tool_flag_matters:at": 280,
     }
 
 
@@ -134,6 +153,14 @@ def shards(tier: str, seed: int) -> List[Dict[str, Any]]:
     sub = 1000
     for fam in ("row", "stack", "col1", "col2", "multirow", "vrow") if quick else RANDOM_FAMS:
         out.append({"kind": "rand", "fam": fam, "n": 120 if quick else 700, "sub": sub, "via": "pdf"})
+        sub += 1
+    sub = 2000
+    for fam in ("stack", "col1", "col2", "overprint", "multirow", "grid", "vstack", "row"):
+        out.append({"kind": "rand", "fam": fam, "n": 70 if quick else 400, "sub": sub, "via": "form"})
+        sub += 1
+    sub = 3000
+    for fam in ("row", "multirow", "stack", "col2", "grid", "vrow", "vstack", "soup"):
+        out.append({"kind": "rand", "fam": fam, "n": 50 if quick else 300, "sub": sub, "via": "tool"})
         sub += 1
     return out
 
@@ -158,7 +185,7 @@ def _laparams(la: Dict[str, Any]):
     from pdfminer.layout import LAParams
 
     return LAParams(line_overlap=la["lo"], char_margin=la["cm"], line_margin=la["lm"], word_margin=la["wm"],
-                    boxes_flow=la["bf"], detect_vertical=la["dv"])
+                    boxes_flow=la["bf"], detect_vertical=la["dv"], all_texts=bool(la.get("at", False)))
 
 
 def _texts(case: Dict[str, Any]) -> List[str]:
@@ -236,12 +263,62 @@ def build_pdf(case: Dict[str, Any], k: int) -> bytes:
     return doc.build()
 
 
+def _numf(f: Fraction) -> bytes:
+    """Exact decimal spelling of a dyadic rational."""
+    assert f.denominator & (f.denominator - 1) == 0, f
+    return _num(f.numerator, -(f.denominator.bit_length() - 1))
+
+
+def form_transform(case: Dict[str, Any], k: int):
+    """-> (a, c_k, (tx, ty), (ux_k, uy_k), (trx, try), s): /Matrix [a 0 0 a tx ty], cm [c_k 0 0 c_k ux_k uy_k] (units, exact
+    Fractions).  A point q of form space lands at q*a*c_k + tr_k on the page, tr_k = t*c_k + u_k."""
+    fm = case["form"]
+    two_k = Fraction(2) ** k
+    unit = Fraction(1, 1 << Q)
+    a, c0 = Fraction(fm["a"]), Fraction(fm["c"])
+    ux0, uy0 = fm["u"][0] * unit, fm["u"][1] * unit
+    tr0 = (fm["tr"][0] * unit, fm["tr"][1] * unit)
+    t = ((tr0[0] - ux0) / c0, (tr0[1] - uy0) / c0)  # scale-independent: the form object is the same at every scale
+    ck = c0 * two_k
+    return a, ck, t, (ux0 * two_k, uy0 * two_k), (tr0[0] * two_k, tr0[1] * two_k), a * ck
+
+
+def build_form_pdf(case: Dict[str, Any], k: int) -> bytes:
+    """The arrangement drawn through a form XObject whose /Matrix does not commute with the cm in force at Do; the
+    page is scaled by 2^k through that cm alone (form object and its content are identical at every scale)."""
+    from vf.gen.pdfw import N, Raw, Stream, page_doc
+
+    a, ck, t, u, tr, s = form_transform(case, k)
+    a0, c0, _t, _u, tr0, s0 = form_transform(case, 0)
+    unit = Fraction(1, 1 << Q)
+    texts = _texts(case)
+    parts = [b"BT"]
+    for i, (x0, y0, w, h) in enumerate(case["glyphs"]):
+        qx, qy = (x0 * unit - tr0[0]) / s0, (y0 * unit - tr0[1]) / s0
+        parts.append(b"/F1 %s Tf 1 0 0 1 %s %s Tm <%02X> Tj" % (_numf(h * unit / s0), _numf(qx), _numf(qy), ord(texts[i])))
+    parts.append(b"ET")
+    p = case["page"]
+    bw, bh = (p[2] * unit - tr0[0]) / s0, (p[3] * unit - tr0[1]) / s0
+    form = Stream({"Type": N("XObject"), "Subtype": N("Form"),
+                   "BBox": Raw(b"[0 0 %s %s]" % (_numf(bw), _numf(bh))),
+                   "Matrix": Raw(b"[%s 0 0 %s %s %s]" % (_numf(a), _numf(a), _numf(t[0]), _numf(t[1]))),
+                   "Resources": {"Font": {"F1": _font_dict()}}}, b"\n".join(parts))
+    content = b"q %s 0 0 %s %s %s cm /Fm1 Do Q" % (_numf(ck), _numf(ck), _numf(u[0]), _numf(u[1]))
+    mb = Raw(b"[" + b" ".join(_num(v, k - Q) for v in p) + b"]")
+    from vf.gen.pdfw import Doc
+
+    doc = Doc()
+    fref = doc.add(form)
+    doc = page_doc([{"content": content, "resources": {"XObject": {"Fm1": fref}}, "mediabox": mb}], doc=doc)
+    return doc.build()
+
+
 def analyse_pdf(case: Dict[str, Any], k: int):
     """-> (page, {id(LTChar): glyph index}) ; raises _Precondition when the glyph boxes are not the intended ones"""
     from pdfminer.high_level import extract_pages
     from pdfminer.layout import LTChar, LTContainer
 
-    data = build_pdf(case, k)
+    data = build_form_pdf(case, k) if case.get("via") == "form" else build_pdf(case, k)
     pages = list(extract_pages(io.BytesIO(data), laparams=_laparams(case["la"])))
     if len(pages) != 1:
         raise _Precondition("pages=%d" % len(pages))
@@ -270,6 +347,13 @@ def analyse_pdf(case: Dict[str, Any], k: int):
         raise _Precondition("glyphs missing from the page: %r" % [v for v in want.values() if v][:3])
     if tuple(page.bbox) != tuple(math.ldexp(v, s) for v in case["page"]):
         raise _Precondition("page bbox %r" % (page.bbox,))
+    if case.get("via") == "form":
+        from pdfminer.layout import LTFigure
+
+        kids = list(page)
+        if len(kids) != 1 or not isinstance(kids[0], LTFigure):
+            raise _Precondition("page children %r, expected the one figure" % [type(o).__name__ for o in kids])
+        return kids[0], ids
     return page, ids
 
 
@@ -286,6 +370,7 @@ class Tree:
         self.other: List[str] = []
         self.groups: Any = None
         self.sig: Any = None
+        self.container_bbox: Tuple[float, ...] = ()
         self.bboxes: List[Tuple[float, ...]] = []  # glyphs, lines, boxes in output order
         self.gbboxes: List[Tuple[float, ...]] = []  # groups
 
@@ -294,6 +379,7 @@ def read_tree(page: Any, ids: Dict[int, int]) -> Tree:
     from pdfminer.layout import LTAnno, LTChar, LTTextBox, LTTextGroup, LTTextLine
 
     t = Tree()
+    t.container_bbox = tuple(page.bbox)
 
     def rd_line(ln: Any) -> Dict[str, Any]:
         toks: List[Any] = []
@@ -355,7 +441,7 @@ def _exc_key(e: BaseException) -> str:
 def analyse(case: Dict[str, Any], k: int):
     """-> (Tree, None) or (None, (key, detail))"""
     try:
-        if case.get("via") == "pdf":
+        if case.get("via") in ("pdf", "form"):
             page, ids = analyse_pdf(case, k)
         else:
             page, ids = analyse_direct(case, k)
@@ -655,9 +741,174 @@ def _show(t: Tree) -> List[List[str]]:
 
 
 # --------------------------------------------------------------------------
+# monitor C: the same glyph boxes through a form XObject (all_texts=True) group like on the page
+# --------------------------------------------------------------------------
+SCALES_FORM = [-4, 3]
+
+
+def add_form(case: Dict[str, Any], rng: random.Random) -> Dict[str, Any]:
+    """Turn a page-origin-(0,0) case into a form case: /Matrix scales by a (and translates), the cm at Do scales by c
+    and translates by u; a*c != 1 and u is more than two page sizes, so /Matrix and cm do not commute by far."""
+    p = case["page"]
+    a, c = rng.choice([(2.0, 1.0), (0.5, 1.0), (4.0, 1.0), (1.0, 2.0), (1.0, 0.5), (2.0, 2.0), (0.5, 0.25), (4.0, 0.5)])
+    u = [rng.choice([-1, 1]) * (2 * p[2] + rng.randrange(0, 4 * G.U) // 64 * 64),
+         rng.choice([-1, 1]) * (2 * p[3] + rng.randrange(0, 4 * G.U) // 64 * 64)]
+    tr = [rng.randrange(0, G.U // 2) // 64 * 64, rng.randrange(0, G.U // 2) // 64 * 64]
+    out = dict(case)
+    out["via"] = "form"
+    out["fam"] = case["fam"]
+    out["la"] = dict(case["la"], at=True)
+    out["form"] = {"a": a, "c": c, "u": u, "tr": tr}
+    return out
+
+
+def check_form_case(case: Dict[str, Any], stats: Dict[str, int]) -> List[Tuple[str, str]]:
+    fails: List[Tuple[str, str]] = []
+    tf, err = analyse(case, 0)
+    stats["analyses"] = stats.get("analyses", 0) + 1
+    if err is not None:
+        return [(err[0], "%s [form route, fam=%s form=%r]" % (err[1], case["fam"], case["form"]))]
+    # the figure's box: the form's /BBox mapped by /Matrix x CTM (ISO 32000-1 8.10.1) = [tr, page corner]
+    unit = 2.0 ** -Q
+    want_bbox = (case["form"]["tr"][0] * unit, case["form"]["tr"][1] * unit, case["page"][2] * unit, case["page"][3] * unit)
+    if tf.container_bbox != want_bbox:
+        fails.append(("form:figure_bbox", "LTFigure bbox %r, but /BBox mapped by /Matrix x CTM is %r [form=%r]"
+                      % (tf.container_bbox, want_bbox, case["form"])))
+    # documented grouping inside the figure
+    st: Dict[str, int] = {}
+    for kx, d in check_documented(case, tf, st):
+        fails.append(("form:" + kx, d + " [inside a form XObject, all_texts=True, form=%r]" % (case["form"],)))
+    for name in ("box_partitions_asserted", "pairs_decided", "linepairs_yes"):
+        stats["form:" + name] = stats.get("form:" + name, 0) + st.get(name, 0)
+    if any(len(b["lines"]) >= 2 for b in tf.boxes):
+        stats["form_cases_with_multiline_box"] = stats.get("form_cases_with_multiline_box", 0) + 1
+    # the same arrangement directly on the page
+    pc = dict(case, via="pdf")
+    tp, err = analyse(pc, 0)
+    stats["analyses"] = stats.get("analyses", 0) + 1
+    if err is not None:
+        fails.append((err[0], "%s [page twin of a form case]" % err[1]))
+    else:
+        stats["form_vs_page_compared"] = stats.get("form_vs_page_compared", 0) + 1
+        if any(len(b["lines"]) >= 2 for b in tp.boxes):
+            stats["form_twin_with_multiline_box"] = stats.get("form_twin_with_multiline_box", 0) + 1
+        if tp.sig != tf.sig or tp.groups != tf.groups:
+            fails.append(("form_vs_page:grouping", "glyphs drawn on the page give %r, the same glyph boxes drawn through "
+                          "a form XObject (all_texts=True) give %r [fam=%s la=%r form=%r]"
+                          % (_show(tp), _show(tf), case["fam"], case["la"], case["form"])))
+        elif tp.bboxes != tf.bboxes:
+            fails.append(("form_vs_page:bbox", "same tree, different bounding boxes [form=%r]" % (case["form"],)))
+    # scaled through the cm alone
+    for kx, d in check_scales(case, tf, SCALES_FORM, stats):
+        fails.append((kx if kx.startswith("pdf_route") else "form:" + kx, d))
+    return fails
+
+
+# --------------------------------------------------------------------------
+# monitor D: every layout flag of tools/pdf2txt.py reaches the analysis
+# --------------------------------------------------------------------------
+_TOOLS: Dict[str, Any] = {}
+LA_DEFAULT = {"lo": 0.5, "cm": 2.0, "lm": 0.5, "wm": 0.1, "bf": 0.5, "dv": False, "at": False}
+LA_FLAG = {"lo": "--line-overlap", "cm": "--char-margin", "lm": "--line-margin", "wm": "--word-margin",
+           "bf": "--boxes-flow", "dv": "--detect-vertical", "at": "--all-texts"}
+
+
+def _tool(name: str) -> Any:
+    """tools/<name>.py of the tree under test, imported by path (the tools are scripts, not a package)."""
+    import importlib.util
+    import os
+
+    from vf import REPO
+
+    if name not in _TOOLS:
+        spec = importlib.util.spec_from_file_location("vf_c09_tool_" + name, os.path.join(REPO, "tools", name + ".py"))
+        mod = importlib.util.module_from_spec(spec)  # type: ignore[arg-type]
+        spec.loader.exec_module(mod)  # type: ignore[union-attr]
+        _TOOLS[name] = mod
+    return _TOOLS[name]
+
+
+def tool_la(case: Dict[str, Any], rng: random.Random) -> Dict[str, Any]:
+    """LAParams for a tool case: every numeric flag differs from its default."""
+    la = dict(case["la"])
+    la.setdefault("at", False)
+    alt = {"lo": G.LO, "cm": G.CM, "lm": G.LM, "wm": G.WM, "bf": G.BF}
+    for k, vals in alt.items():
+        while la[k] == LA_DEFAULT[k]:
+            la[k] = rng.choice(vals)
+    return la
+
+
+def check_tool_case(case: Dict[str, Any], stats: Dict[str, int]) -> List[Tuple[str, str]]:
+    import contextlib
+    import os
+    import shutil
+    import tempfile
+
+    from pdfminer.high_level import extract_text
+
+    la = case["la"]
+    src = dict(case, via=case["toolsrc"])
+    try:
+        data = build_form_pdf(src, 0) if case["toolsrc"] == "form" else build_pdf(src, 0)
+    except Exception as e:  # noqa: BLE001
+        return [("harness:tool_case", repr(e))]
+    wd = tempfile.mkdtemp(prefix="vf-c09-")
+    try:
+        path, outp = os.path.join(wd, "in.pdf"), os.path.join(wd, "out.txt")
+        with open(path, "wb") as f:
+            f.write(data)
+        args = [path, "-o", outp]
+        for k in ("lo", "cm", "lm", "wm"):
+            args.append("%s=%r" % (LA_FLAG[k], la[k]))
+        args.append("--boxes-flow=%s" % ("disabled" if la["bf"] is None else repr(la["bf"])))
+        if la["dv"]:
+            args.append("--detect-vertical")
+        if la.get("at"):
+            args.append("--all-texts")
+        try:
+            with contextlib.redirect_stdout(io.StringIO()):
+                _tool("pdf2txt").main(args)
+            with open(outp, encoding="utf-8") as f:
+                got = f.read()
+        except (Exception, SystemExit) as e:  # noqa: BLE001
+            return [("pdf2txt:exception:%s" % type(e).__name__, "pdf2txt %s: %r" % (" ".join(args[3:]), e))]
+        stats["tool_runs"] = stats.get("tool_runs", 0) + 1
+
+        def lib(la_: Dict[str, Any]) -> str:
+            return extract_text(path, laparams=_laparams(la_))
+
+        try:
+            want = lib(la)
+            alts = {}
+            for k in LA_FLAG:
+                if la.get(k, False) != LA_DEFAULT[k]:
+                    alts[k] = lib(dict(la, **{k: LA_DEFAULT[k]}))
+        except Exception as e:  # noqa: BLE001
+            return [(_exc_key(e), "extract_text on a tool case: %r" % e)]
+        for k, txt in alts.items():
+            if txt != want:
+                stats["tool_flag_matters:" + k] = stats.get("tool_flag_matters:" + k, 0) + 1
+        if got == want:
+            return []
+        ignored = sorted(k for k, txt in alts.items() if txt == got)
+        key = "pdf2txt_flag_ignored:" + LA_FLAG[ignored[0]] if len(ignored) == 1 else "pdf2txt_layout_flags"
+        return [(key, "pdf2txt %s writes %r but extract_text(laparams=LAParams(same values)) gives %r%s"
+                 % (" ".join(args[3:]), got[:300], want[:300],
+                    "; the output is what the library gives with %s at its default" % [LA_FLAG[k] for k in ignored]
+                    if ignored else ""))]
+    finally:
+        shutil.rmtree(wd, ignore_errors=True)
+
+
+# --------------------------------------------------------------------------
 def check_case(case: Dict[str, Any], scales: List[int], stats: Optional[Dict[str, int]] = None) -> List[Tuple[str, str]]:
     if stats is None:
         stats = {}
+    if case.get("via") in ("form", "tool"):
+        fails = check_form_case(case, stats) if case["via"] == "form" else check_tool_case(case, stats)
+        seen_k = set()
+        return [(kx, d) for kx, d in fails if not (kx in seen_k or seen_k.add(kx))]
     t0, err = analyse(case, 0)
     stats["analyses"] = stats.get("analyses", 0) + 1
     if err is not None:
@@ -693,6 +944,14 @@ def _run_one(case: Dict[str, Any], scales: List[int], rec) -> None:
     rec.case(chash(case["glyphs"], case["page"], case["la"], case.get("via")), decided > 0)
     for k, v in stats.items():
         rec.count(k, v)
+    sfx = {"pdf": "/pdf", "form": "/form", "tool": "/tool"}.get(case.get("via"), "")
+    if sfx in ("/form", "/tool"):
+        rec.count("form_cases" if sfx == "/form" else "tool_cases")
+        rec.count("fam:" + case["fam"] + sfx)
+        rec.see("families", case["fam"] + sfx)
+        for kx, d in fails:
+            rec.fail(kx, case, d)
+        return
     rec.count("fam:" + case["fam"] + ("/pdf" if case.get("via") == "pdf" else ""))
     rec.count("multi_cell_pages", _multi_cell(case, scales))
     if case.get("via") == "pdf":
@@ -718,6 +977,23 @@ def run_shard(spec: Dict[str, Any], rec) -> None:
     rng = random.Random("C09/%d/%d" % (spec["seed"], spec["sub"]))
     gen = G.GENERATORS[spec["fam"]]
     via = spec["via"]
+    if via in ("form", "tool"):
+        for i in range(spec["n"]):
+            for _try in range(20):
+                case = gen(rng, "pdf")
+                if G.extent(case) <= 24 * G.U:
+                    break
+            if via == "form":
+                case = add_form(case, rng)
+            else:
+                src = "form" if i % 4 == 3 else "pdf"
+                if src == "form":
+                    case = add_form(case, rng)
+                case["toolsrc"] = src
+                case["via"] = "tool"
+                case["la"] = tool_la(case, rng)
+            _run_one(case, [], rec)
+        return
     limit = 40 * G.U if via == "direct" else 24 * G.U
     for _ in range(spec["n"]):
         for _try in range(20):
@@ -748,4 +1024,6 @@ def finish(agg: Dict[str, Any], tier: str) -> Dict[str, Any]:
 
 
 def replay(case: Dict[str, Any]) -> List[Tuple[str, str]]:
+    if case.get("via") in ("form", "tool"):
+        return check_case(case, [])
     return check_case(case, SCALES_PDF if case.get("via") == "pdf" else SCALES_ALL)
